@@ -3,6 +3,7 @@ module verif
 go 1.26
 
 require (
+	github.com/anishathalye/porcupine v1.3.0
 	github.com/hknutzen/Netspoc-Approve/go v0.0.0-00010101000000-000000000000
 	github.com/tailscale/goexpect v0.0.0-20210902213824-6e8c725cea41
 )
